@@ -5,6 +5,7 @@ import (
 	"go/constant"
 	"go/token"
 	"go/types"
+	"regexp"
 	"sort"
 	"strings"
 
@@ -219,6 +220,9 @@ func (tc *termCtx) call(c *ssa.CallCommon, d int) string {
 	}
 	switch f := c.Value.(type) {
 	case *ssa.Function:
+		if k, suffix, ok := tc.ff.P.getter(f); ok && k < len(args) {
+			return args[k] + suffix // trivial accessor, e.g. Block.Seq() = .Head.BkSeq
+		}
 		return FnName(f) + "(" + strings.Join(args, ", ") + ")"
 	case *ssa.Builtin:
 		return f.Name() + "(" + strings.Join(args, ", ") + ")"
@@ -333,6 +337,10 @@ func (tc *termCtx) loadAlloc(a *ssa.Alloc, load ssa.Instruction, d int) string {
 		}
 	}
 	if len(fieldStores) > 0 && len(stores) <= 1 {
+		base := ""
+		if len(stores) == 1 {
+			base = tc.term(stores[0].Val, d+1)
+		}
 		var names []string
 		for k := range fieldStores {
 			names = append(names, k)
@@ -342,7 +350,7 @@ func (tc *termCtx) loadAlloc(a *ssa.Alloc, load ssa.Instruction, d int) string {
 		for _, k := range names {
 			parts = append(parts, k+": "+strings.Join(uniqTerms(tc, fieldStores[k], d), "|"))
 		}
-		return "{" + strings.Join(parts, ", ") + "}"
+		return base + "{" + strings.Join(parts, ", ") + "}"
 	}
 	if len(stores) == 0 {
 		return "local:" + allocName(a)
@@ -374,4 +382,42 @@ func (tc *termCtx) makeMap(m *ssa.MakeMap, d int) string {
 		return "map{}"
 	}
 	return "set{" + strings.Join(uniqTerms(tc, keys, d), "|") + "}"
+}
+
+var getterRe = regexp.MustCompile(`^\$(\d+)((\.[A-Za-z_][A-Za-z_0-9]*)+)$`)
+
+// getter recognises module accessors whose body is "return <param>.<field path>".
+func (p *Program) getter(f *ssa.Function) (int, string, bool) {
+	if g, ok := p.getters[f]; ok {
+		return g.k, g.suffix, g.ok
+	}
+	res := getterInfo{}
+	if f.Blocks != nil && len(f.Blocks) == 1 && InModule(f) && f.Signature.Results().Len() == 1 {
+		b := f.Blocks[0]
+		pure := true
+		for _, in := range b.Instrs {
+			switch in.(type) {
+			case *ssa.FieldAddr, *ssa.Field, *ssa.UnOp, *ssa.Return, *ssa.DebugRef, *ssa.Alloc, *ssa.Store:
+			default:
+				pure = false
+			}
+		}
+		if ret, ok := b.Instrs[len(b.Instrs)-1].(*ssa.Return); ok && pure && len(ret.Results) == 1 {
+			p.getters[f] = res // recursion guard
+			t := p.Facts(f).Term(ret.Results[0])
+			if m := getterRe.FindStringSubmatch(t); m != nil {
+				fmt.Sscanf(m[1], "%d", &res.k)
+				res.suffix = m[2]
+				res.ok = true
+			}
+		}
+	}
+	p.getters[f] = res
+	return res.k, res.suffix, res.ok
+}
+
+type getterInfo struct {
+	k      int
+	suffix string
+	ok     bool
 }
